@@ -1015,11 +1015,11 @@ static int btls_send(struct xcm_socket *__restrict s,
 
     LOG_SEND_REQ(s, buf, len);
 
+    try_finish_tls_handshake(s);
+
     TP_RET_ERR_IF_STATE(s, bts, conn_state_bad, bts->conn.badness_reason);
 
     TP_RET_ERR_IF_STATE(s, bts, conn_state_closed, EPIPE);
-
-    try_finish_tls_handshake(s);
 
     TP_RET_ERR_UNLESS_STATE(s, bts, conn_state_ready, EAGAIN);
 
